@@ -52,6 +52,8 @@ mod store;
 mod sys;
 mod task;
 #[cfg(nomt_verif)]
+pub mod verif_api;
+#[cfg(nomt_verif)]
 pub mod verif_hook;
 
 mod io;
